@@ -39,3 +39,20 @@ package auth
 //@   modifies d.addr
 //@   ensures result == d.addr
 //@   ensures old(d.addr) == codec.EmptyAddress ==> result[0] == SECP256R1ID && (forall j int :: 0 <= j && j < 32 ==> result[1 + j] == utils.ToID(d.Signer[:])[j])
+
+// ---- C16: the ed25519 batch verifier never leaves an added signature without a verification
+// closure.  Invariant between calls: every signature added so far is covered by a closure already
+// returned, except those sitting in the current batch. ----
+//@ spec func batchRI(b *ED25519Batch) bool = ite(isnil(b.batch), gint("added", nil) == gint("covered", nil), gint("added", nil) == gint("covered", nil) + gint("n", b.batch) - gint("sub", b.batch) && gint("sub", b.batch) <= gint("n", b.batch))
+//@ func (*ED25519Batch).Add props C16
+//@   noframe
+//@   reveal batchRI
+//@   requires batchRI(b)
+//@   modifies *b, gint("added", nil), gint("covered", nil), gint("n", b.batch), gint("sub", b.batch)
+//@   ensures batchRI(b) && gint("added", nil) == old(gint("added", nil)) + 1
+//@ func (*ED25519Batch).Done props C16
+//@   noframe
+//@   reveal batchRI
+//@   requires batchRI(b)
+//@   modifies gint("covered", nil), gint("sub", b.batch)
+//@   ensures gint("added", nil) == gint("covered", nil)
